@@ -312,3 +312,15 @@ for nm in MARKER_QUICK + MARKER_SLOW:
       "5 symbolic source bytes; a chunker that puts its boundaries after stream positions %s (stands for any content-defined chunker on any content with those boundaries; a function of stream position and buffer length only); %s" % (ends, sc),
       "the streaming wrapper reproduces exactly those boundaries whatever the read script: offsets contiguous, item bytes == source bytes, tail once, then end (34 of the 96 placement x script combinations finish; the others run out of memory and are not registered)",
       ["StreamingChunker::new", "StreamingChunker::poll_next"], [REFILL8])
+
+# ---------------------------------------------------------------------------
+# C08 body accumulation: scenario runs (every length concrete, every byte of the served file symbolic)
+# ---------------------------------------------------------------------------
+for nm, d in (("a", "3 adjacent chunks (2,3,1 bytes); fragments 1,4,1: a fragment ends inside a chunk, one spans two chunks"),
+              ("b", "same chunks, the whole run in one fragment"), ("c", "same chunks, fragments 3,3"),
+              ("d", "same chunks, body ends cleanly after 4 of 6 bytes: one chunk, then UnexpectedEnd -- never a short chunk"),
+              ("e", "2 adjacent chunks (3,2); fragments 2, Pending, 3"), ("f", "two runs separated by a gap, one fragment per request"),
+              ("g", "two chunks stored in descending order, fragments 1,2 / 2")):
+    h("c08_body_run_" + nm, ["C08", "C07"] if nm in ("f", "g") else ["C08"], "quick", d + "; every byte of the served file symbolic",
+      "whole multi-poll run of ChunkReader::poll_read (extend / split_to / clear / UnexpectedEnd mapping): item i is exactly the bytes of range i, in order; early end is an error",
+      CR, [STUB_REQWEST, STUB_INNER])
